@@ -84,9 +84,17 @@ func New(w http.ResponseWriter, r *http.Request, options ...Option) (*ResponseWr
 	case opts.mhPathType:
 		mhStr := strings.TrimSpace(path.Base(r.URL.Path))
 		b, err = base58.Decode(mhStr)
+		if err == nil {
+			// Every hex digit but 0 is also a base58 character: a hex key
+			// without a 0 decodes as base58 into something that is not a
+			// multihash.
+			_, err = multihash.Decode(b)
+		}
 		if err != nil {
-			b, err = hex.DecodeString(mhStr)
-			if err != nil {
+			if hb, herr := hex.DecodeString(mhStr); herr == nil {
+				b = hb
+			} else if len(b) == 0 {
+				// Neither base58 nor hex.
 				return nil, apierror.New(multihash.ErrInvalidMultihash, http.StatusBadRequest)
 			}
 		}
